@@ -256,6 +256,8 @@ class StrDomain:
         self.facts = facts
         self.compared = set()       # (atom name, literal, 'eq' | 'ci'): whole-string comparisons answered "different" by assumption
         self.predicates = {}        # workspace predicate -> {(position of the input argument, literal it was compared with)}
+        self.bounds = {}            # site of a bounded operation (splitn(n, ..), take(n)) -> (n, whether the bound was ever binding): an input that
+                                    # never reaches the bound says nothing about what happens beyond it
         self._impls = {}
 
     # ------------------------------------------------------------------ equality
@@ -447,6 +449,10 @@ class StrDomain:
         el = self.seq(itv, st)
         return None if MORE in el else el
 
+    def bound(self, node, n, binding):
+        k = (node.get('id'), n)
+        self.bounds[k] = self.bounds.get(k, False) or bool(binding)
+
     def new_iter(self, elems, st):
         u, st2 = st.fresh('it')
         return ('siter', tuple(elems), u[2]), st2
@@ -533,6 +539,7 @@ class StrDomain:
                     # at most n pieces; the last one is the rest of the string, not looked into
                     r = split_parts(ps, p2, args[1][1]) if name == 'splitn' else rsplit_parts(ps, p2, args[1][1])
                     if r is not None:
+                        self.bound(node, args[1][1], len(r) == args[1][1] and r and has_char(r[-1], p2) is not False)
                         it, st2 = self.new_iter([mk(x) for x in r], st)
                         return val(it, st2)
             if name in ('split_once', 'rsplit_once') and len(args) == 2 and pt is not None and len(pt) == 1:
@@ -680,12 +687,14 @@ class StrDomain:
                 return val(('lit', n), self.advance(it, n, st))
             if name == 'collect' and len(args) == 1 and (node.get('ty') or '').startswith('alloc::vec::Vec<'):
                 return val(('vec', tuple(el)), self.advance(it, n, st))
-            if name in ('rev', 'skip', 'take', 'enumerate', 'peekable', 'fuse', 'by_ref', 'into_iter') and len(args) <= 2:
-                if name in ('peekable', 'fuse', 'by_ref', 'into_iter'):
+            if name in ('rev', 'skip', 'take', 'enumerate', 'peekable', 'fuse', 'into_iter') and len(args) <= 2:
+                if name in ('peekable', 'fuse', 'into_iter'):
                     return val(it)
                 k = args[1][1] if len(args) == 2 and args[1][0] == 'lit' and isinstance(args[1][1], int) else None
                 if name in ('skip', 'take') and k is None:
                     return None
+                if name == 'take':
+                    self.bound(node, k, n > k)
                 new = {'rev': lambda: list(reversed(el)), 'skip': lambda: el[k:], 'take': lambda: el[:k],
                        'enumerate': lambda: [('tuple', (('lit', i), x)) for i, x in enumerate(el)]}[name]()
                 nit, st2 = self.new_iter(new, self.advance(it, n, st))
